@@ -424,6 +424,10 @@ func (p *Program) c17Expand(v ssa.Value, facts []Fact, depth int) []c17Leaf {
 	if ph, ok := v.(*ssa.Phi); ok && depth < 6 {
 		var out []c17Leaf
 		for i, e := range ph.Edges {
+			if !p.c17PhiEdgeFeasible(ph, i, facts) {
+				// e.g. the `return nil, err` of a merged helper when its error is known nil here
+				continue
+			}
 			fs := append(append([]Fact{}, facts...), p.FactsOnEdge(ph.Block().Preds[i], ph.Block())...)
 			out = append(out, p.c17Expand(e, fs, depth+1)...)
 		}
@@ -462,6 +466,53 @@ func c17NilnessOf(v ssa.Value) tri {
 	return unknownTri
 }
 
+// c17PhiEdgeFeasible: can the phi have been entered over its i-th edge when `facts` hold? No when the
+// facts say something about the phi or about another phi of the same block (the sibling results of one
+// helper return) that the value carried by that edge contradicts.
+func (p *Program) c17PhiEdgeFeasible(ph *ssa.Phi, i int, facts []Fact) bool {
+	blk := ph.Block()
+	if i >= len(blk.Preds) {
+		return true
+	}
+	siblingEdge := func(x ssa.Value, i int) (ssa.Value, bool) {
+		s, ok := x.(*ssa.Phi)
+		if !ok || s.Block() != blk || i >= len(s.Edges) {
+			return nil, false
+		}
+		return s.Edges[i], true
+	}
+	edgeFs := p.FactsOnEdge(blk.Preds[i], blk)
+	for _, f := range facts {
+		if sv, ok := siblingEdge(f.Cond, i); ok {
+			if cb, isConst := constBool(sv); isConst {
+				if cb != f.Pol {
+					return false
+				}
+			} else if t := p.boolFromFacts(edgeFs, sv); (t == yesTri && !f.Pol) || (t == noTri && f.Pol) {
+				return false
+			}
+			continue
+		}
+		x, trueMeansNonNil, isNilTest := errNilTest(f.Cond)
+		if !isNilTest {
+			continue
+		}
+		sv, ok := siblingEdge(x, i)
+		if !ok {
+			continue
+		}
+		wantNil := f.Pol != trueMeansNonNil
+		n := c17NilnessOf(sv)
+		if n == unknownTri {
+			n = p.nilnessFromFacts(edgeFs, sv)
+		}
+		if (wantNil && n == noTri) || (!wantNil && n == yesTri) {
+			return false
+		}
+	}
+	return true
+}
+
 // c17PhiUnderFacts: the values v can carry at a point where `facts` hold. An incoming edge of a phi
 // is dropped when it contradicts what the facts say about that phi or about another phi of the same
 // block (the sibling results of one helper return: `return nil, false, nil` cannot be the return
@@ -473,49 +524,13 @@ func (p *Program) c17PhiUnderFacts(v ssa.Value, facts []Fact, depth int) []ssa.V
 		return []ssa.Value{v}
 	}
 	blk := ph.Block()
-	siblingEdge := func(x ssa.Value, i int) (ssa.Value, bool) {
-		s, ok := x.(*ssa.Phi)
-		if !ok || s.Block() != blk || i >= len(s.Edges) {
-			return nil, false
-		}
-		return s.Edges[i], true
-	}
 	var out []ssa.Value
 	seen := map[ssa.Value]bool{}
 	for i, e := range ph.Edges {
 		if i >= len(blk.Preds) {
 			return []ssa.Value{v}
 		}
-		edgeFs := p.FactsOnEdge(blk.Preds[i], blk)
-		feasible := true
-		for _, f := range facts {
-			if sv, ok := siblingEdge(f.Cond, i); ok {
-				if cb, isConst := constBool(sv); isConst {
-					if cb != f.Pol {
-						feasible = false
-					}
-				} else if t := p.boolFromFacts(edgeFs, sv); (t == yesTri && !f.Pol) || (t == noTri && f.Pol) {
-					feasible = false
-				}
-				continue
-			}
-			x, trueMeansNonNil, isNilTest := errNilTest(f.Cond)
-			if !isNilTest {
-				continue
-			}
-			sv, ok := siblingEdge(x, i)
-			if !ok {
-				continue
-			}
-			wantNil := f.Pol != trueMeansNonNil
-			n := c17NilnessOf(sv)
-			if n == unknownTri {
-				n = p.nilnessFromFacts(edgeFs, sv)
-			}
-			if (wantNil && n == noTri) || (!wantNil && n == yesTri) {
-				feasible = false
-			}
-		}
+		feasible := p.c17PhiEdgeFeasible(ph, i, facts)
 		if !feasible {
 			continue
 		}
